@@ -19,7 +19,7 @@ pub fn vocabulary(reduced: bool) -> Vec<&'static str> {
     if !reduced {
         v.extend([
             "DEFINITIONS", "AUTOMATIC", "TAGS", "IMPORTS", "FROM", "NULL", "OCTET", "BIT", "STRING", "UTF8String", "IA5String", "NumericString", "PrintableString", "VisibleString", "UNIVERSAL", "APPLICATION", "PRIVATE", "TRUE", "FALSE", "WITH",
-            "COMPONENTS", "9223372036854775808", "18446744073709551616", "-9223372036854775809", "'AB'H", "'01'B", "\"x\"", "--", "/*", "*/", "H", "B",
+            "COMPONENTS", "9223372036854775808", "18446744073709551616", "-9223372036854775809", "'AB'H", "'01'B", "\"x\"", "--", "/*", "*/", "H", "B", "1000", "-300", "65536",
         ]);
     }
     v
@@ -332,7 +332,7 @@ impl Space {
         let mut seeds: Vec<(&'static str, Vec<String>, String)> = seeds().into_iter().map(|(n, m)| (n, lex::items(&m.asn()).into_iter().map(|i| format!("{i} ")).collect(), m.asn())).collect();
         // multi-line variants with comments: the "items" are whitespace separated words (comment
         // delimiters and comment words included), so faults also land inside comments and at line starts
-        for (name, idx) in [("s12-smallest-commented", 0usize), ("s1-readme-commented", 1), ("s10-literals-commented", seeds.len() - 1)] {
+        for (name, idx) in [("s12-smallest-commented", 0usize), ("s1-readme-commented", 1), ("s10-literals-commented", seeds.iter().position(|s| s.0 == "s10-literals").expect("seed s10-literals"))] {
             let plain: Vec<String> = seeds[idx].1.iter().map(|s| s.trim_end().to_string()).collect();
             let text = commented_layout(&plain);
             seeds.push((name, words_with_separators(&text), text));
